@@ -4,14 +4,14 @@ CONSTANTS
   Funcs = {"f1", "f2"}
   FuncSeq <- MCFuncSeq
   Fakes = {"k1", "k2"}
-  Sites = {1, 2}
+  Sites = {1, 2, 3}
   SlotLen = 4
   MaxPatch = 3
   PatchSizes = {2}
   Split <- MCSplit
   MaxTramps = 4
-  NVals <- MCNValsT
-  BoolSet = {"true", "false"}
+  NVals <- MCNVals
+  BoolSet = {"true"}
   GuardKinds = {"inj"}
   MatchVals = {TRUE}
   DropOrder = "reverse"
@@ -30,11 +30,11 @@ CONSTANTS
   UserCalls = FALSE
   MaxUserCalls = 0
   InstallKinds = {"jump", "bool"}
-  Faults = {"mmap", "mprotect"}
+  Faults = {}
   SiteReuse = FALSE
   MaxLives = 1
-  Gates = {"ok", "sig", "bool", "null", "abandon"}
-  MaxInstalls = 2
+  Gates = {"ok", "abandon"}
+  MaxInstalls = 3
 CONSTRAINT CanonDrop
 INVARIANT Emit
 CHECK_DEADLOCK FALSE
